@@ -84,10 +84,15 @@ impl SaslPlainMechanism {
     fn validate_init(&self, init: SaslInit) -> Option<SaslCode> {
         let response = init.initial_response?.into_vec();
 
+        // message = [authzid] NUL authcid NUL passwd
         let mut split = response.split(|b| *b == 0u8);
         let _authzid = split.next()?;
         let authcid = split.next()?;
         let passwd = split.next()?;
+        if split.next().is_some() {
+            // A further NUL (and whatever follows it) is not part of a valid response
+            return Some(SaslCode::Auth);
+        }
         Some(self.validate_credential(authcid, passwd))
     }
 
